@@ -34,6 +34,8 @@ def show(n, top=True):
         return n[2]
     if k == 'anyopts':
         return '[options]'
+    if k == 'raw':
+        return n[1]
     if k == 'seq':
         return ' '.join(show(c, False) for c in n[1])
     if k == 'optional':
